@@ -167,8 +167,11 @@ def check(case, rec):
         else:
             w = np.asarray(want, dtype=np.float64)
             g = full_e.astype(np.float64)
-            tol = 64 * np.finfo(np.float64).eps * np.maximum(np.asarray(mag, dtype=np.float64), np.abs(w)) + 1e-300
-            bad = np.nonzero(~(np.abs(g - w) <= tol))[0]
+            with np.errstate(all='ignore'):
+                tol = 64 * np.finfo(np.float64).eps * np.maximum(np.asarray(mag, dtype=np.float64), np.abs(w)) + 1e-300
+                # overflowing polynomials: equal infinities / NaNs agree; no finite conditioning where the magnitude overflows
+                same = (g == w) | (np.isnan(g) & np.isnan(w)) | (np.abs(g - w) <= tol) | ~np.isfinite(tol)
+            bad = np.nonzero(~same)[0]
             if len(bad):
                 i = int(bad[0])
                 rec.violation('value', 'element %d: scaled %r, dataflow evaluation %r (raw %r, tolerance %.3g); graph %r' % (
